@@ -94,6 +94,11 @@ class TaskHandler:
         future.add_done_callback(callback)
         return future
 
+    def open(self):
+        """Accept tasks (again): flush() closes the handler, an agent that is started again opens it."""
+        with self._accept_lock:
+            self._open = True
+
     def flush(self):
         """Await completion of all pending tasks."""
         with self._accept_lock:
